@@ -256,3 +256,125 @@ def prove(pc, claim, timeout_ms=10000):
         m = s.model()
         return "refuted", {d.name(): str(m[d]) for d in m.decls()}
     return "unknown", None
+
+
+# ----------------------------------------------------------------------------- symbolic reals (for C24)
+def rterm(x):
+    if isinstance(x, SymReal):
+        return x.t
+    if isinstance(x, bool):
+        return z3.RealVal(int(x))
+    if isinstance(x, builtins.int):
+        return z3.RealVal(x)
+    if isinstance(x, float):
+        from fractions import Fraction
+        q = Fraction(x).limit_denominator(10 ** 6)
+        if abs(float(q) - x) > 2.3e-16 * max(1.0, abs(x)):
+            q = Fraction(x)
+        return z3.RealVal(f"{q.numerator}/{q.denominator}")
+    raise TypeError(f"cannot use {type(x).__name__} as a symbolic real")
+
+
+class SymReal:
+    """z3-backed real number proxy: field operations build terms, comparisons fork paths."""
+    __slots__ = ("t",)
+
+    def __init__(self, t):
+        self.t = z3.Real(t) if isinstance(t, str) else t
+
+    def __add__(s, o):
+        return SymReal(s.t + rterm(o))
+    __radd__ = __add__
+
+    def __sub__(s, o):
+        return SymReal(s.t - rterm(o))
+
+    def __rsub__(s, o):
+        return SymReal(rterm(o) - s.t)
+
+    def __mul__(s, o):
+        return SymReal(s.t * rterm(o))
+    __rmul__ = __mul__
+
+    def __truediv__(s, o):
+        return SymReal(s.t / rterm(o))
+
+    def __rtruediv__(s, o):
+        return SymReal(rterm(o) / s.t)
+
+    def __neg__(s):
+        return SymReal(-s.t)
+
+    def __pos__(s):
+        return s
+
+    def __abs__(s):
+        return SymReal(z3.If(s.t >= 0, s.t, -s.t))
+
+    def __pow__(s, o):
+        if isinstance(o, builtins.int) and not isinstance(o, bool):
+            if o >= 0:
+                r = z3.RealVal(1)
+                for _ in range(o):
+                    r = r * s.t
+                return SymReal(r)
+            r = z3.RealVal(1)
+            for _ in range(-o):
+                r = r * s.t
+            return SymReal(1 / r)
+        if isinstance(o, float) and o.is_integer():
+            return s.__pow__(int(o))
+        raise TypeError("non-integer power of a symbolic real: not symbolic")
+
+    def __rpow__(s, o):
+        raise TypeError("symbolic exponent: not symbolic")
+
+    def conjugate(s):
+        return s
+
+    @property
+    def real(s):
+        return s
+
+    @property
+    def imag(s):
+        return 0
+
+    def __lt__(s, o):
+        return SymBool(s.t < rterm(o))
+
+    def __le__(s, o):
+        return SymBool(s.t <= rterm(o))
+
+    def __gt__(s, o):
+        return SymBool(s.t > rterm(o))
+
+    def __ge__(s, o):
+        return SymBool(s.t >= rterm(o))
+
+    def __eq__(s, o):
+        try:
+            return SymBool(s.t == rterm(o))
+        except TypeError:
+            return False
+
+    def __ne__(s, o):
+        try:
+            return SymBool(s.t != rterm(o))
+        except TypeError:
+            return True
+
+    def __hash__(s):
+        raise TypeError("symbolic real is unhashable")
+
+    def __bool__(s):
+        return _CUR[0].decide(s.t != 0)
+
+    def __float__(s):
+        raise TypeError("float() of a symbolic real: floats are not symbolic")
+
+    def __complex__(s):
+        raise TypeError("complex() of a symbolic real")
+
+    def __repr__(s):
+        return f"SymReal({s.t})"
